@@ -161,7 +161,7 @@ def answer (line : String) : String :=
           s!"{showEntries l}#{bits S}#{showEntries (canonOfBits base S)}#{if safe then 1 else 0}#{if okd then 1 else 0}"
         -- F13d trigger: a `^=` whose plain-list operand has overlapping entries (so iterating it repeats code points)
         let opOkD : DOp → Bool
-          | .ixorl o => decide (WInv (ofList o))
+          | .ixorl _ => true
           | _ => true
         let (_, _, _, outs, lfin, _) := ops.foldl (fun (st : List CP × List Bool × Bool × List String × List CP × Bool) op =>
             let (l, S, safe, outs, _, okd) := st
